@@ -2,7 +2,7 @@
 import random
 
 from .. import taps
-from ..direct import DirectRun, SimStub, gen_history
+from ..direct import DirectRun, SimStub, gen_deep_cancel_history, gen_history
 from ..lifecycle import C04Monitor
 from ..runnerdrive import gen_accounting_case, run_runner_case
 
@@ -23,13 +23,15 @@ REQUIRED = {
               "class/partial_fill_then_cancel": 10, "class/fill_in_last_live_step": 10,
               "class/cancel_after_expired": 5, "class/cancel_after_filled": 5, "class/cancel_after_cancelled": 5,
               "class/refused_resubmission": 3, "class/refused_spoofed_order": 3,
-              "class/refused_foreign_market": 3, "class/refused_constructor_misuse": 10, "book_comparisons": 5000},
+              "class/refused_foreign_market": 3, "class/refused_constructor_misuse": 10, "book_comparisons": 5000,
+              "class/expiry_of_long_lived_order": 20},
     "thorough": {"acceptances": 200000, "fills": 40000, "expiries": 10000, "class/cancel_of_resting": 4000,
                  "class/partial_fill_then_cancel": 300, "class/fill_in_last_live_step": 300,
                  "class/cancel_after_expired": 100, "class/cancel_after_filled": 100,
                  "class/cancel_after_cancelled": 100, "class/refused_resubmission": 50,
                  "class/refused_spoofed_order": 50, "class/refused_foreign_market": 50,
-                 "class/refused_constructor_misuse": 200, "book_comparisons": 200000},
+                 "class/refused_constructor_misuse": 200, "book_comparisons": 200000,
+                 "class/expiry_of_long_lived_order": 600},
 }
 
 
@@ -43,6 +45,15 @@ def gen_case(rng, tier, idx):
         return gen_accounting_case(rng, tier, hostile=rng.choice(["resubmit", "spoof", "foreign_cancel"]))
     if r == 19:
         return {"drive": "misuse", "seed": rng.randrange(1 << 30)}
+    if r == 11:
+        c = gen_deep_cancel_history(rng, tier)
+        c["drive"] = "direct"
+        return c
+    if r == 12:
+        c = gen_history(rng, tier, {"ttl_menu": [None, 40, 41, 60, 99, 100, 101, 150], "max_levels": 2, "long_lived": True,
+                                    "p_market": 0.0})
+        c["drive"] = "direct"
+        return c
     if r in (13, 14, 15, 16):
         c = gen_history(rng, tier, {"ttl_menu": [None, 1, 1, 2, 3], "max_levels": 3})
         c["drive"] = "direct"
